@@ -265,6 +265,8 @@ class Gen(object):
                     if r.random() < 0.7:
                         items.insert(len(items) - 1, "%s %s <- stack" % (self.lit(), y))
                 else:
+                    if r.random() < 0.75:
+                        items.append("%s %s <- stack" % (self.lit(), y))      # dup of an empty output is an error
                     items.append("%d %s dup" % (r.choice([0, 1, 2, 3, 7]), y))
             elif c < 0.86 and self.words:
                 name, pops, pushes = r.choice(self.words)
